@@ -5,16 +5,19 @@ CFG = {'streams': [{'name': 'C01',
               'thorough_seeds': 2,
               'what_fails': 'strict execution of an accepted file differs from the model of strict.rs (graph, error-vs-success, or root-cause '
                             'variant); codes: 1 graphs differ, 2 model Ok/impl Err, 3 model Err/impl Ok, 4 error variants differ, 5/6 panic '
-                            'mismatch, 7 model out of fuel'}],
+                            'mismatch, 7 model out of fuel; 8x = the reference semantics Spec/RefSem.v disagrees with the implementation although '
+                            'the model of strict.rs agrees'}],
  'rule': 'typed environment-tracking generator over the whole statement/expression grammar (11 statements, 13 expressions, globals, shorthands, '
          'inherit, scan, comprehensions; blocks nested to depth 3; 1-5 stanzas from 12 query templates) x generated/corpus Python sources x supplied '
          'globals; non-trivial = at least 2 stanzas and at least 3 matches; distinct by hash of (DSL, source)',
- 'explanation': "Theorems: the strict driver runs each stanza's block once per match in file order; a successful run only extends the graph. "
-                'Correspondence: the executable model of strict.rs (Model/Strict.v, with Model/Stdlib.v and Model/Regex.v) against File::execute on '
-                'every generated case, comparing the whole graph exactly (strict numbering is deterministic) or the root-cause error variant.',
- 'partial': ["strict_sound/strict_complete (model of strict.rs = reference big-step semantics Spec/RefSem) not yet proved: the check of 'exactly the "
-             "graph the reference prescribes' currently rests on the correspondence of the implementation-shaped model with the code plus the proved "
-             'driver/extension theorems'],
+ 'explanation': 'Theorems: strict_refines_reference — the model of strict.rs (Model/Strict.v, with cancellation polls, error contexts, the shared '
+                'function_parameters buffer) returns exactly the result of the reference semantics Spec/RefSem.v (same graph by equality; same '
+                'root-cause error; panics/divergence coincide), for every file, tree, match list, globals, function library, initial graph and fuel; '
+                "params_stack_balanced; the driver runs each stanza's block once per match in file order; a successful run only extends the graph. "
+                'Correspondence: BOTH Model/Strict.v and Spec/RefSem.v are evaluated (vm_compute) on every generated case and compared with '
+                'File::execute — whole graph exactly (strict numbering is deterministic) or root-cause error variant.',
+ 'partial': ['Spec/RefSem.v is a hand transcription of the prose reference (src/reference/mod.rs) into an evaluator; points where the prose is '
+             'silent are listed in its header. Debug attributes are outside the reference (covered by C15).'],
  'assumptions': ['tree-sitter queries are an external: raw matches are recorded by calling QueryCursor::matches directly on the stanza queries and '
                  'on the merged file query',
                  'regex crate: modelled by Model/Regex.v on the generated sub-language (validated by stream C10rx); stdlib functions: Model/Stdlib.v '
